@@ -90,7 +90,16 @@ func CheckProperty(cfg *Config, id string) int {
 		shards = []Shard{{Entry: parts[0], Args: args, Name: "adhoc " + a}}
 	}
 	if os.Getenv("GOSE_COUNT") != "" {
-		fmt.Println("SHARDS", len(shards))
+		ents := map[string]bool{}
+		for _, s := range shards {
+			ents[s.Entry] = true
+		}
+		var es []string
+		for e := range ents {
+			es = append(es, e)
+		}
+		sort.Strings(es)
+		fmt.Println("SHARDS", len(shards), strings.Join(es, ","))
 		return 0
 	}
 	if f := os.Getenv("GOSE_SHARD"); f != "" {
